@@ -4,6 +4,8 @@
 package chained_bft
 
 import (
+	chainedBftPb "github.com/xuperchain/xupercore/kernel/consensus/base/driver/chained-bft/pb"
+	"github.com/xuperchain/xupercore/lib/utils"
 	xuperp2p "github.com/xuperchain/xupercore/protos"
 )
 
@@ -86,3 +88,14 @@ func (s *Smr) VerifQcTree() *QCPendingTree { return s.qcTree }
 
 // VerifLedgerState exposes the ledger-state view of an Smr.
 func (s *Smr) VerifLedgerState() int64 { return s.ledgerState }
+
+// VerifVotes returns the vote signatures the collector has stored for a proposal id
+// (the value of qcVoteMsgs; nil, false when nothing is stored).
+func (s *Smr) VerifVotes(id []byte) ([]*chainedBftPb.QuorumCertSign, bool) {
+	v, ok := s.qcVoteMsgs.Load(utils.F(id))
+	if !ok {
+		return nil, false
+	}
+	signs, _ := v.([]*chainedBftPb.QuorumCertSign)
+	return signs, true
+}
